@@ -207,6 +207,19 @@ def run(ctx: Ctx) -> int:
             )
     ctx.floor("C10.c-meta-pops", n_pairs, 2)
 
+    # ---------------- C10.d the name written for an object denotes that object ---------------------------------------
+    # an importable module-level INSTANCE is dumped as the dotted name of the module variable that holds it; parsing
+    # that name gives back the variable's value - the same object only if the variable was chosen by identity
+    # (an equal-but-distinct instance earlier in the module would be named instead; the serializer's identity
+    # re-check then fails and the dump holds an "Unable to serialize" text)
+    gmv = ctx.func("_util:get_module_var_path")
+    vpar = gmv.args.args[1].arg
+    cmps = [c_ for c_ in walk_local(gmv) if isinstance(c_, ast.Compare) and any(isinstance(n_, ast.Name) and n_.id == vpar for n_ in [c_.left] + c_.comparators)]
+    ctx.need(cmps, "get_module_var_path: comparison of a module variable with the value")
+    for c_ in cmps:
+        ok = all(isinstance(o, (ast.Is, ast.IsNot)) for o in c_.ops)
+        ctx.oblige("C10.d", ok, c_, "the module variable is matched by identity" if ok else f"`{ast.unparse(c_)}` matches a module variable by equality: for a class with __eq__ an earlier equal instance is named instead of the object itself - dump writes a name that parses to a different object (or the serializer's identity re-check fails and the dump no longer parses)", fn=gmv, construct="module variable matched by identity")
+
     return ctx.finish(
         explanation=(
             "For every deserialising conversion site of adapt_typehints/adapt_class_type (found by callee, shared with C01.e) the lexical control dependence must contain a test that the value "
